@@ -83,6 +83,8 @@ type cont struct {
 	dir  string // "fwd" | "rev" (iteration direction of every iterator of the run)
 	q    *pubsub.Queue[string]
 	dq   *pubsub.Deque[string]
+	nb   pubsub.Distributor[string] // DistributorNonBlocking: Send = ForcePushBack
+	viaD bool                       // forward Force pushes go through nb.Send
 }
 
 func newCont(kind, dir, trk string, hard, soft, credit int) (*cont, error) {
@@ -96,7 +98,14 @@ func newCont(kind, dir, trk string, hard, soft, credit int) (*cont, error) {
 		}
 		return c, err
 	}
-	c.dq, err = pubsub.NewDeque[string](pubsub.DequeOptions{Unlimited: true})
+	if trk == "hard" {
+		c.dq, err = pubsub.NewDeque[string](pubsub.DequeOptions{Capacity: hard})
+	} else {
+		c.dq, err = pubsub.NewDeque[string](pubsub.DequeOptions{Unlimited: true})
+	}
+	if err == nil {
+		c.nb = c.dq.DistributorNonBlocking()
+	}
 	return c, err
 }
 
@@ -125,6 +134,18 @@ func (c *cont) add(v string) string {
 		return errName(c.dq.PushBack(v))
 	}
 	return errName(c.dq.PushFront(v))
+}
+
+// fadd is a Force push at the far end in iteration direction: on a deque at capacity it evicts the item at the
+// near end first (ForcePushBack / DistributorNonBlocking.Send for forward, ForcePushFront for reverse iteration).
+func (c *cont) fadd(v string) string {
+	switch {
+	case c.dir == "fwd" && c.viaD:
+		return errName(c.nb.Send(context.Background(), v))
+	case c.dir == "fwd":
+		return errName(c.dq.ForcePushBack(v))
+	}
+	return errName(c.dq.ForcePushFront(v))
 }
 
 // pop removes at the near ("n") or far ("f") end in iteration direction.
